@@ -25,7 +25,8 @@ THEOREMS = ["Econf.C03_lookup", "Econf.C03_nothing_else", "Econf.C03_no_duplicat
             "LeafKf.selBy_model", "LeafKf.agSel_model", "LeafKf.EntMem.reblock", "LeafKf.Example.run_add", "LeafKf.Example.ctx_add",
             # merge_existing_groups in parts: its shape, the search loop with break, the inner copying loop (= the model's newKeysOf); the NULL cases of all three
             "LeafKf.merge_existing_groups_shape", "LeafKf.me_last", "LeafKf.loop_brk", "LeafKf.C_me_newkeys", "LeafKf.mn_round", "LeafKf.ArrInv.append",
-            "LeafKf.mnSel_model", "LeafKf.firstIdx_eq_length_iff", "LeafKf.insert_nogroup_null", "LeafKf.add_new_groups_null", "LeafKf.merge_existing_groups_null"]
+            "LeafKf.mnSel_model", "LeafKf.firstIdx_eq_length_iff", "LeafKf.me_override", "LeafKf.me_newval", "LeafKf.findEntry_eq", "LeafKf.ArrInv.congr",
+            "LeafKf.EntMem.ptr_str", "LeafKf.EntMem.reblock'", "LeafKf.GlMem.fst_unique", "LeafKf.insert_nogroup_null", "LeafKf.add_new_groups_null", "LeafKf.merge_existing_groups_null"]
 RULE = ("pairs of entry lists over {group-less,A,B}x{x,y}: exhaustive up to the tier's length bound, built by parsing and by the setters "
         "on all constructor kinds, plus random larger pairs, pairs with valueless definitions, and pairs in which an input is the result of "
         "econf_readDirs or a member of a history; non-trivial = merge succeeded and both sides non-empty or one side an "
